@@ -84,7 +84,22 @@ impl BuildJob<'_> {
     ) -> Result<Pin<Box<dyn Future<Output = i32> + 'a>>, RedoError> {
         let before_t = try_stat(self.t.as_path()).map_err(RedoError::opaque_error)?;
         debug_assert!(self.lock.is_owned());
+        #[cfg(feature = "verif")]
+        crate::verif::point("job.begin", &format!("{} {}", self.lock.file_id(), self.t));
         let (is_target, dirty) = (self.should_build_func)(&mut ptx, &self.t)?;
+        #[cfg(feature = "verif")]
+        crate::verif::point(
+            "job.decide",
+            &format!(
+                "{} {}",
+                self.lock.file_id(),
+                match &dirty {
+                    Dirtiness::Clean => "clean",
+                    Dirtiness::Dirty => "dirty",
+                    Dirtiness::NeedTargets(_) => "need",
+                }
+            ),
+        );
         match dirty {
             Dirtiness::Clean => {
                 // Target doesn't need to be built; skip the whole task.
@@ -274,6 +289,8 @@ impl BuildJob<'_> {
         dof.set_static(ptx.state().env())?;
         dof.save(&mut ptx)?;
         let ps = ptx.commit().map_err(RedoError::opaque_error)?;
+        #[cfg(feature = "verif")]
+        crate::verif::point("job.script", &format!("{} {}", lock.file_id(), t));
         logs::meta("do", state::target_relpath(ps.env(), &t)?.as_str(), None);
 
         // Wrap out_file in a Cell, since we drop it in the subprocess.
@@ -391,6 +408,8 @@ impl BuildJob<'_> {
         Ok(Box::pin(async move {
             let _lock = lock; // ensure we hold the lock until after state has been recorded
             let mut rv = job.await;
+            #[cfg(feature = "verif")]
+            crate::verif::point("job.record.begin", &format!("{} {}", _lock.file_id(), rv));
             let mut ps = ps_ref.borrow_mut();
             let mut ptx = match ProcessTransaction::new(*ps, TransactionBehavior::Immediate) {
                 Ok(ptx) => ptx,
@@ -403,6 +422,8 @@ impl BuildJob<'_> {
                 eprintln!("{:?}: {}", &t, e);
                 return EXIT_BUILD_JOB_ERROR;
             }
+            #[cfg(feature = "verif")]
+            crate::verif::point("job.record.end", &format!("{} {}", _lock.file_id(), rv));
             rv
         }))
     }
@@ -661,6 +682,15 @@ where
     use std::convert::TryInto;
     use std::iter::FromIterator;
 
+    #[cfg(feature = "verif")]
+    crate::verif::point(
+        "run.begin",
+        &format!(
+            "{} {}",
+            targets.len(),
+            std::env::var("REDO_TARGET").unwrap_or_default().replace(' ', "_")
+        ),
+    );
     let mut target_order = Vec::from_iter(0..targets.len());
     if ps.env().shuffle {
         target_order.shuffle(&mut rand::thread_rng());
@@ -762,6 +792,8 @@ where
                         state::target_relpath(ptx.state().env(), &t)?.as_str(),
                         None,
                     );
+                    #[cfg(feature = "verif")]
+                    crate::verif::point("run.locked", &format!("{} {}", f.id(), t));
                     locked.push_back((f.id(), t));
                 } else {
                     // We had to create f before we had a lock, because we need f.id
@@ -887,6 +919,8 @@ where
     // TODO(maybe): Use !job_futures.is_empty() instead of server.is_running() in
     // the above loop.
     job_futures.fold((), |_, _| future::ready(())).await;
+    #[cfg(feature = "verif")]
+    crate::verif::point("run.end", "");
     result.replace(Ok(()))
 }
 
